@@ -40,6 +40,7 @@ enum Op {
     New(u32, u32),
     Default,
     Reparse(u8), // 0 bytes, 1 hex, 2 JSON, 3 CBOR
+    Parse(Vec<u8>, bool), // continue with from_bytes / from_hex of the given bytes
 }
 
 const KEY: [u8; 32] = [
@@ -118,6 +119,8 @@ fn parse_op(s: &str) -> Option<Op> {
         ("fh", 1) => Op::Reparse(1),
         ("fj", 1) => Op::Reparse(2),
         ("fc", 1) => Op::Reparse(3),
+        ("pb", 2) => Op::Parse(expand(f[1])?, false),
+        ("ph", 2) => Op::Parse(expand(f[1])?, true),
         ("sh", 5) => {
             let fl: u64 = num(f[1])?;
             if fl > 255 {
@@ -185,6 +188,13 @@ pub fn run(op: &str, args: &[String]) -> Option<String> {
             }
             Op::New(v, lt) => tx = Transaction::new(v, lt),
             Op::Default => tx = Transaction::default(),
+            Op::Parse(b, as_hex) => {
+                let r = if as_hex { Transaction::from_hex(&hex::encode(&b)) } else { Transaction::from_bytes(&b) };
+                match r {
+                    Ok(t) => tx = t,
+                    Err(_) => return Some("ERR".into()),
+                }
+            }
             Op::Reparse(kind) => {
                 let r = match kind {
                     0 => tx.to_bytes().and_then(|b| Transaction::from_bytes(&b)),
